@@ -6,12 +6,29 @@ import time
 import warnings
 
 import numpy as np
-from scipy.optimize import least_squares
+import yaml
+from scipy.optimize import least_squares, OptimizeResult
 
-from holopy.core.holopy_object import HoloPyObject
+from holopy.core.holopy_object import HoloPyObject, YAMLLOADERS
 from holopy.core.metadata import flat, make_subset_data
 from holopy.scattering.errors import  MissingParameter
 from holopy.inference.result import FitResult, UncertainValue
+
+
+# yaml would write least_squares' report (FitResult.minimizer_info) with a
+# python/object tag, which the loader refuses; write it as a plain mapping
+def _optimize_result_representer(dumper, data):
+    return dumper.represent_mapping('!OptimizeResult', dict(data))
+
+
+def _optimize_result_constructor(loader, node):
+    return OptimizeResult(loader.construct_mapping(node, deep=True))
+
+
+yaml.add_representer(OptimizeResult, _optimize_result_representer)
+for _loader in YAMLLOADERS:
+    yaml.add_constructor('!OptimizeResult', _optimize_result_constructor,
+                         Loader=_loader)
 
 
 class LeastSquaresScipyStrategy(HoloPyObject):
@@ -61,10 +78,11 @@ class LeastSquaresScipyStrategy(HoloPyObject):
         if len(parameters) == 0:
             raise MissingParameter('at least one parameter to fit')
 
-        if self.npixels is None:
-            data = flat(data)
-        else:
+        if self.npixels is not None:
             data = make_subset_data(data, pixels=self.npixels)
+        # the result keeps the image (or the subset, which remembers its
+        # original dims); a flattened full image could not be saved
+        result_data, data = data, flat(data)
         guess_lnprior = model.lnprior(model.initial_guess)
 
         def residual(rescaled_values):
@@ -95,7 +113,7 @@ class LeastSquaresScipyStrategy(HoloPyObject):
         # timing decorator...
         d_time = time.time() - time_start
         kwargs = {'intervals': intervals, 'minimizer_info': minimizer_info}
-        return FitResult(data, model, self, d_time, kwargs)
+        return FitResult(result_data, model, self, d_time, kwargs)
 
     def minimize(self, parameters, residuals_function):
         initial_parameter_guess = [par.scale(par.guess) for par in parameters]
